@@ -25,6 +25,8 @@ def run(F, X, rep):
     l_poll_loop(F, X, rep)
     h_subscription(F, X, rep)
     c_one_cell(F, X, rep)
+    import rules_provider as P
+    P.g_getinfo_is_fresh(R.Ctx.get(F, X), rep, "C20-F")
 
 
 def c_one_cell(F, X, rep, rid="C20-C"):
